@@ -110,9 +110,8 @@ func Build(e *Env, spec TopoSpec, srv *goat.Server, copts func(i int) []goat.Dia
 		// clients and one server connection per client are all attached to one
 		// proxy; each client talks to its own server name srv (single client)
 		// or, with several clients, the server side is demultiplexed (TopoProxyDemux).
-		if spec.Clients != 1 {
-			panic("TopoProxy supports one client; use TopoProxyDemux")
-		}
+		// one client only (several clients need the server side demultiplexed:
+		// TopoProxyDemux); extra clients of a shrunk scenario are ignored
 		pctx, pcancel := context.WithCancel(context.Background())
 		e.OnTeardown(pcancel)
 		n.ProxyCancel = pcancel
